@@ -1,6 +1,8 @@
 package core
 
 import (
+	"fmt"
+	"os"
 	"go/token"
 	"go/types"
 	"sort"
@@ -35,6 +37,15 @@ type EnumInterp struct {
 	// ModsFilter may decide that a call cannot modify a field (e.g. because the
 	// field's guarding mutex is held across the call).
 	ModsFilter func(call ssa.CallInstruction, fieldName string) (decided, mods bool)
+	// AutoFields: a load of a domain-typed field yields only values some store puts there
+	// (plus the zero value), and a call of a domain-typed function yields what it can return.
+	AutoFields bool
+	// ClosedWorld: exported functions are assumed to be called only from the analysed packages.
+	ClosedWorld bool
+	fieldSets  map[*types.Var]Set
+	fieldBusy  map[*types.Var]bool
+	retSets    map[*ssa.Function]Set
+	inRet      map[*ssa.Function]bool
 }
 
 // NewEnumInterp builds an interpreter for one domain.
@@ -111,7 +122,7 @@ func (ip *EnumInterp) Sites(f *ssa.Function) ([]ssa.CallInstruction, bool) {
 		return nil, false
 	}
 	if f.Parent() == nil {
-		if o := f.Object(); o != nil && o.Exported() {
+		if o := f.Object(); o != nil && o.Exported() && !ip.ClosedWorld {
 			return nil, false
 		}
 		// methods may be called through interfaces
@@ -155,7 +166,7 @@ func (ip *EnumInterp) mods(call ssa.CallInstruction, fieldName string) bool {
 				}
 			})
 		}
-		cl = ip.P.CallersClosure(writers)
+		cl = ip.P.CallersClosureWithin(writers, ip.P.InAnalysed)
 		// a function that creates a writer closure and passes it on is covered
 		// by the call graph edge from whoever invokes it.
 		ip.modClosure[fieldName] = cl
@@ -181,12 +192,14 @@ func (ip *EnumInterp) Flow(f *ssa.Function, ctx Ctx) *EnumFlow {
 	fl := &EnumFlow{P: ip.P, F: f, D: ip.D, Mods: ip.mods}
 	ip.flows[k] = fl // break recursion: an in-progress flow answers ⊤
 	fl.Res = func(v ssa.Value) (Set, bool) { return ip.resolve(f, ctx, v) }
+	fl.CellRes = func(path string, root ssa.Value) (Set, bool) { return ip.cellResolve(f, ctx, path, root) }
 	ip.depth++
-	if ip.depth < 8 {
+	if ip.depth < 24 {
 		fl.Run()
 	} else {
-		fl.in = map[*ssa.BasicBlock]enumEnv{}
-		fl.Undecided = append(fl.Undecided, "context depth exceeded")
+		fl.Unknown = true
+		fl.Done = true
+		delete(ip.flows, k) // do not memoise a cut-off analysis
 	}
 	ip.depth--
 	return fl
@@ -238,8 +251,118 @@ func (ip *EnumInterp) resolve(f *ssa.Function, ctx Ctx, v ssa.Value) (Set, bool)
 			// local spilled variable (captured by a closure): union of stores
 			return ip.allocStores(al, ctx)
 		}
+		if fld := AddrField(x.X); fld != nil && ip.AutoFields && types.Identical(fld.Type(), ip.D.T) {
+			return ip.fieldSet(fld), true
+		}
+	case *ssa.Call:
+		if ip.AutoFields && types.Identical(x.Type(), ip.D.T) {
+			return ip.retSet(x)
+		}
 	}
 	return 0, false
+}
+
+// fieldSet: union of everything stored into the field anywhere (plus the zero
+// value when no constructor initialises it). Cyclic dependencies (a value read
+// from the field is stored back) are solved as a least fixpoint.
+func (ip *EnumInterp) fieldSet(fld *types.Var) Set {
+	if ip.fieldSets == nil {
+		ip.fieldSets = map[*types.Var]Set{}
+		ip.fieldBusy = map[*types.Var]bool{}
+	}
+	if ip.fieldBusy[fld] {
+		return ip.fieldSets[fld] // optimistic partial result
+	}
+	if s, ok := ip.fieldSets[fld]; ok {
+		return s
+	}
+	ip.fieldBusy[fld] = true
+	stores := ip.P.StoresTo(fld)
+	hasInit := false
+	for _, st := range stores {
+		if st.Kind == "init" {
+			hasInit = true
+		}
+	}
+	var cur Set
+	if !hasInit {
+		cur = ip.D.Of(0)
+	}
+	ip.fieldSets[fld] = cur
+	for iter := 0; iter < 8; iter++ {
+		u := cur
+		for _, st := range stores {
+			s, ok := st.Instr.(*ssa.Store)
+			if !ok {
+				u = ip.D.Top()
+				break
+			}
+			fl := ip.Flow(st.Fn, Ctx{})
+			if v, reach := fl.ValueAt(s.Val, s); reach {
+				u |= v
+			}
+		}
+		if u == cur {
+			break
+		}
+		cur = u
+		ip.fieldSets[fld] = cur
+		// facts derived from the previous approximation are stale
+		ip.flows = map[string]*EnumFlow{}
+		ip.retSets = map[*ssa.Function]Set{}
+	}
+	delete(ip.fieldBusy, fld)
+	if os.Getenv("TCHK_DEBUG") != "" {
+		fmt.Fprintf(os.Stderr, "fieldSet %s = %s\n", fld.Name(), ip.D.String(cur))
+		for _, st := range stores {
+			if s, ok := st.Instr.(*ssa.Store); ok {
+				fl := ip.Flow(st.Fn, Ctx{})
+				v, reach := fl.ValueAt(s.Val, s)
+				fmt.Fprintf(os.Stderr, "   store in %s: %s reach=%v\n", st.Fn, ip.D.String(v), reach)
+			}
+		}
+	}
+	return cur
+}
+
+func (ip *EnumInterp) retSet(c *ssa.Call) (Set, bool) {
+	if ip.retSets == nil {
+		ip.retSets = map[*ssa.Function]Set{}
+	}
+	if ip.inRet == nil {
+		ip.inRet = map[*ssa.Function]bool{}
+	}
+	callees := ip.P.Callees(c)
+	if len(callees) == 0 {
+		return 0, false
+	}
+	var u Set
+	for _, g := range callees {
+		if g.Blocks == nil || !ip.P.InAnalysed(g) {
+			return 0, false
+		}
+		s, ok := ip.retSets[g]
+		if !ok {
+			if ip.inRet[g] {
+				return 0, false
+			}
+			ip.inRet[g] = true
+			fl := ip.Flow(g, Ctx{})
+			EachInstr(g, func(i ssa.Instruction) {
+				if ret, isRet := i.(*ssa.Return); isRet && len(ret.Results) == 1 {
+					if v, reach := fl.ValueAt(ReturnValues(ret)[0], ret); reach {
+						s |= v
+					}
+				}
+			})
+			delete(ip.inRet, g)
+			if len(ip.fieldBusy) == 0 {
+				ip.retSets[g] = s
+			}
+		}
+		u |= s
+	}
+	return u, true
 }
 
 func (ip *EnumInterp) evalArg(site ssa.CallInstruction, idx int, ctx Ctx) (Set, bool) {
@@ -249,6 +372,9 @@ func (ip *EnumInterp) evalArg(site ssa.CallInstruction, idx int, ctx Ctx) (Set, 
 	}
 	caller := site.Parent()
 	fl := ip.Flow(caller, ctx)
+	if !fl.Done {
+		return 0, false
+	}
 	return fl.ValueAt(args[idx], site)
 }
 
@@ -355,6 +481,64 @@ func (ip *EnumInterp) allocStores(al *ssa.Alloc, ctx Ctx) (Set, bool) {
 		u |= ip.D.Of(0)
 	}
 	return u, ok
+}
+
+
+// cellResolve: contents of a memory cell rooted at a parameter, as established
+// by the callers (union over call sites, or the context's site).
+func (ip *EnumInterp) cellResolve(f *ssa.Function, ctx Ctx, path string, root ssa.Value) (Set, bool) {
+	prm, ok := root.(*ssa.Parameter)
+	if !ok || prm.Parent() != f {
+		return 0, false
+	}
+	prefix := "p:" + prm.Name()
+	if !strings.HasPrefix(path, prefix) {
+		return 0, false
+	}
+	suffix := strings.TrimPrefix(path, prefix)
+	if !strings.HasPrefix(suffix, ".&") {
+		return 0, false
+	}
+	idx := -1
+	for k, q := range f.Params {
+		if q == prm {
+			idx = k
+		}
+	}
+	var sites []ssa.CallInstruction
+	if s, ok := ctx[f]; ok {
+		sites = []ssa.CallInstruction{s}
+	} else {
+		ss, ok := ip.Sites(f)
+		if !ok || len(ss) == 0 {
+			return 0, false
+		}
+		sites = ss
+	}
+	var u Set
+	for _, s := range sites {
+		args := s.Common().Args
+		if s.Common().IsInvoke() || idx >= len(args) {
+			return 0, false
+		}
+		if _, isGo := s.(*ssa.Go); isGo {
+			return 0, false
+		}
+		arg := args[idx]
+		fl := ip.Flow(s.Parent(), ctx)
+		if !fl.Done {
+			return 0, false // caller is being analysed (recursion): no information
+		}
+		cs, reach := fl.PathAt(AccessPath(arg)+suffix, rootOf(arg), s)
+		if os.Getenv("TCHK_DEBUG") != "" {
+			fmt.Fprintf(os.Stderr, "cellResolve %s %s <- site in %s: %s reach=%v\n", f.Name(), path, s.Parent().Name(), ip.D.String(cs), reach)
+		}
+		if !reach {
+			continue
+		}
+		u |= cs
+	}
+	return u, true
 }
 
 // Contexts enumerates call-site contexts for f: one per static call site of
